@@ -3,6 +3,7 @@ package simnet
 // mon_ent.go — oracles for the enterprise-side properties C02, C03, C04, C05, C17.
 
 import (
+	"encoding/json"
 	"fmt"
 	"math/big"
 	"sort"
@@ -33,7 +34,30 @@ type monC02 struct {
 
 func (m *monC02) Name() string { return "C02" }
 
-func (m *monC02) Init(w *World) { m.supply = supplyMap(w, w.DCtx()) } // after InitChain the genesis state lives in the deliver state
+func (m *monC02) Init(w *World) {
+	m.supply = supplyMap(w, w.DCtx()) // after InitChain the genesis state lives in the deliver state
+	// importing the genesis document creates no coins: the supply the chain starts with is the
+	// supply its bank section declares
+	var gs map[string]json.RawMessage
+	if err := json.Unmarshal(w.AppState, &gs); err == nil {
+		var bg banktypes.GenesisState
+		if err := w.Ref.App.AppCodec().UnmarshalJSON(gs[banktypes.ModuleName], &bg); err == nil {
+			w.Probe("c02.genesis-supply-compared")
+			for _, c := range bg.Supply {
+				have := m.supply[c.Denom]
+				if have == nil {
+					have = new(big.Int)
+				}
+				if have.Cmp(c.Amount.BigInt()) != 0 {
+					w.Violate("C02", "C02/genesis-import-changed-supply", "genesis declares a supply of %s, the chain starts with %s%s", c, have, c.Denom)
+				}
+			}
+		}
+	}
+	if w.T.Knobs.UnbackedLocked != "" {
+		w.Probe("c02.unbacked-genesis-imported")
+	}
+}
 
 func (m *monC02) diffSupply(w *World, ctx sdk.Context) map[string]*big.Int {
 	now := supplyMap(w, ctx)
